@@ -20,7 +20,9 @@ RULE = ("Harness subclasses of from_periodic, from_iterable, from_textfile and f
         "of start / stop / advance-clock / finish-consumer / put-item actions, so start and stop "
         "land at every suspension point (during sleep, during a back-pressured emit, between "
         "items). Oracle: concurrently active polling loops <= 1 at every instant; no polling "
-        "cycle (no item pulled) begins while the last command was stop; deliveries are each "
+        "cycle (no item pulled) begins while the last command was stop; an effective start "
+        "(also start=True in the constructor) with no loop suspended enters run() within one "
+        "turn of the loop; deliveries are each "
         "produced item exactly once, in production order; from_iterable pulls item k+1 only "
         "after the consumer finished item k and loses nothing across stop/start. Non-trivial: a "
         "stop immediately followed by start while the previous loop is still suspended.")
@@ -152,6 +154,16 @@ def execute(case):
         effective_starts = [1 if case.get("ctor_start") else 0]
         last_start_idx = [0]
         prev = None
+        # an effective start while no loop is suspended must invoke run() ("invoked by start()"):
+        # index into the log from which a loop entry is owed, checked at the next drain
+        owed = [0 if case.get("ctor_start") else None]
+        not_invoked = []
+
+        def settle_owed():
+            if owed[0] is not None:
+                if not any(e[0] == "loop+" for e in log.events[owed[0]:]) and not not_invoked:
+                    not_invoked.append([e[1] for e in log.events if e[0] == "cmd"])
+                owed[0] = None
         for a in case["actions"]:
             op = a[0]
             nodrain = op.endswith("!")
@@ -166,12 +178,15 @@ def execute(case):
                 if h.last_cmd != "start" or self_stopped:
                     effective_starts[0] += 1
                     last_start_idx[0] = len(log.events)
+                    if h.active == 0:
+                        owed[0] = len(log.events)
                 h.last_cmd = "start"
                 log.add("cmd", "start", log.now())
                 src.start()
             elif op == "stop":
                 h.last_cmd = "stop"
                 log.add("cmd", "stop", log.now())
+                owed[0] = None      # stopped again before the loop ran: nothing is owed
                 src.stop()
             elif op == "adv":
                 if a[1] == "next":
@@ -194,12 +209,14 @@ def execute(case):
             prev = op
             if not nodrain:
                 loop.drain()
+                settle_owed()
             if h.active > 1:
                 break
         # finish: let what is in flight complete, then stop
         cons.auto = True
         cons.finish_all()
         loop.drain()
+        settle_owed()
         h.last_cmd = "stop"
         src.stop()
         for _ in range(6):
@@ -228,6 +245,11 @@ def execute(case):
                   "%s: run() was entered %d times for %d effective start commands (start on a "
                   "started source must have no effect); commands: %s" % (
                       name, runs, effective_starts[0], [e[1] for e in ev if e[0] == "cmd"])))
+    if not_invoked and h.max_active <= 1:
+        v.append(("%s:start-did-not-invoke-run" % ID,
+                  "%s: an effective start (source stopped, no polling loop suspended) was followed "
+                  "by a full turn of the loop without run() being entered; commands so far: %s" % (
+                      name, not_invoked[0])))
     if h.max_active > 1:
         v.append(("%s:two-polling-loops" % ID, "%s: %d polling loops active at once; commands: %s"
                   % (name, h.max_active, [e[1] for e in ev if e[0] == "cmd"])))
